@@ -16,6 +16,8 @@ structure GSt where
   deriving Inhabited
 
 structure DSt where
+  arr : List Nat := []  -- part r: the array of metatype references (object index per element); its elements
+                        -- count as references held outside the three handles
   ksf : Bool := false   -- reply contexts: the send callback refuses
   g : GSt := {}
   m : St := {}
@@ -109,10 +111,42 @@ def runOp (d : DSt) (m : St) (op : Op) (iret : String) : DSt × String :=
   let (m', ok) := m.exec op
   finish d m' ok iret (Refs.alts d.s op)
 
+/-- the elements `new` of an array of references take the place of the elements `old` in ONE assignment: every new
+    element is retained, then every replaced one released (M: through the objects' vtable; S: `Refs.extAdd/extUnref`) -/
+def arrAssign (d : DSt) (m : St) (old new : List Nat) : DSt × String :=
+  let m1 := new.foldl (fun st o => (st.extAdd o).1) m
+  let m2 := old.foldl (fun st o => st.extUnref o) m1
+  let stepS := fun (acc : Refs.SSt × List Refs.SEv) (al : List Refs.Alt) =>
+    match al with | a :: _ => (a.st, acc.2 ++ a.evs) | [] => acc
+  let s1 := new.foldl (fun acc o => stepS acc (Refs.extAdd acc.1 o)) (d.s, [])
+  let s2 := old.foldl (fun acc o => stepS acc (Refs.extUnref acc.1 o)) s1
+  finish { d with arr := new } m2 true "0" [{ ok := true, st := s2.1, evs := s2.2 }]
+
+/-- objects 0 and 1 are harness metatypes that can take `n` more references -/
+def arrOk (m : St) (n : Nat) : Bool :=
+  decide (2 ≤ m.objs.length) && (List.range 2).all fun i =>
+    (m.obj i).kind == .hmeta && (m.obj i).alive && decide (1 ≤ (m.obj i).count) && decide ((m.obj i).count + n ≤ 1000)
+
 def step (d : DSt) (w : List String) : DSt × String :=
   let m := d.m.clearEv
   match w with
   | ["r", "begin"] => ({}, "R ok | C - | I ret=0")
+  | ["r", "arr", "new", ns] =>
+    match ns.toNat? with
+    | some n =>
+      if !d.arr.isEmpty ∨ n < 2 ∨ n > 64 ∨ !arrOk m n then (d, "bad-op") else
+      arrAssign d m [] (List.replicate (n - 1) 0 ++ [1])
+    | none => (d, "bad-op")
+  | ["r", "arr", "rot", ks] =>
+    match ks.toNat? with
+    | some k =>
+      if d.arr.isEmpty ∨ !arrOk m d.arr.length then (d, "bad-op") else
+      arrAssign d m d.arr ((List.range d.arr.length).map fun j => d.arr.getD ((j + k) % d.arr.length) 0)
+    | none => (d, "bad-op")
+  | ["r", "arr", "self"] =>
+    if d.arr.isEmpty ∨ !arrOk m d.arr.length then (d, "bad-op") else arrAssign d m d.arr d.arr
+  | ["r", "arr", "drop"] =>
+    if d.arr.isEmpty then (d, "bad-op") else arrAssign d m d.arr []
   | ["r", "traits", which] =>
     -- both reference traits have the same counting behaviour
     if (which == "input" ∨ which == "meta") ∧ (List.range 3).all (fun h => match m.hnd.getD h none with
@@ -243,17 +277,25 @@ def step (d : DSt) (w : List String) : DSt × String :=
         let k := (m.obj o).kind
         if k != .hmeta ∧ k != .hbuf then (d, "bad-op")
         else if src == "addref" then runOp d m (.extAdd o) "0"
-        else if src == "unref" then runOp d m (.extUnref o) "0"
+        else if src == "unref" then
+          -- (the references of the array elements are not the harness's to give back)
+          if (m.obj o).ext ≤ (d.arr.filter (· == o)).length then (d, "bad-op") else runOp d m (.extUnref o) "0"
         else (d, "bad-op")
     else (d, "bad-op")
   | ["r", "end"] =>
+    -- the array of references goes first
+    let m := d.arr.foldl (fun st o => st.extUnref o) m
+    let stepS0 := fun (acc : Refs.SSt × List Refs.SEv) (al : List Refs.Alt) =>
+      match al with | a :: _ => (a.st, acc.2 ++ a.evs) | [] => acc
+    let sa := d.arr.foldl (fun acc o => stepS0 acc (Refs.extUnref acc.1 o)) (d.s, [])
+    let d := { d with arr := [], s := sa.1 }
     let m' := { m.endAll with hnd := m.endAll.hnd.take 3 }
     -- S: every handle dropped, external references of small counters given back, objects without a
     -- reference destroyed; computed with the spec operations
     let s1 := (List.range d.s.hnd.length).foldl (fun (acc : Refs.SSt × List Refs.SEv) h =>
         match Refs.drop acc.1 h with
         | a :: _ => (a.st, acc.2 ++ a.evs)
-        | [] => acc) (d.s, [])
+        | [] => acc) (d.s, sa.2)
     let s2 := (List.range d.s.objs.length).foldl (fun (acc : Refs.SSt × List Refs.SEv) o =>
         let ob := acc.1.objs.getD o default
         let n := match ob.kind with
@@ -570,8 +612,9 @@ def tag (r : String) (l : List Refs.Alt) : List (String × Refs.Alt) := l.map fu
 def bounced (s : Refs.SSt) (i : Nat) : List Refs.Alt :=
   [{ ok := false, st := s, evs := [{ obj := i, add := 1, unref := 1 }] }] ++ Refs.refusedAlts s i
 
+/-- `file` (slot 3) is a descriptor the notifier cannot poll: it never holds an input -/
 def parseSlot (w : String) : Option (Option Nat) :=
-  if w == "none" then some none else (idx w 3).map some
+  if w == "none" then some none else if w == "file" then some (some 3) else (idx w 3).map some
 
 def stepN (d : DSt) (w : List String) : DSt × String :=
   let m := d.m.clearEv
@@ -590,7 +633,7 @@ def stepN (d : DSt) (w : List String) : DSt × String :=
     if opn != "add" ∧ opn != "config" then
       (match w with
        | ["n", "clear", sl] =>
-         match idx sl 3 with
+         match (if sl == "file" then some 3 else idx sl 3) with
          | some k =>
            match m.hnd.getD k none with
            | none => finishN d m "ok" [("ok", { ok := true, st := d.s })] d.wl d.rdy
@@ -614,13 +657,13 @@ def stepN (d : DSt) (w : List String) : DSt × String :=
       else match inSlot m i with
         | none => finishN d (m1.unref i) "refused" sAlts d.wl d.rdy
         | some sl =>
-          if (m1.hnd.getD sl none).isSome then finishN d (m1.unref i) "refused" sAlts d.wl d.rdy
+          if (m1.hnd.getD sl none).isSome ∨ sl ≥ 3 then finishN d (m1.unref i) "refused" sAlts d.wl d.rdy
           else finishN d { m1 with hnd := m1.hnd.set sl (some i) } "ok" sAlts d.wl d.rdy
     | none => (d, "bad-op")
   | ["n", "change", is_, sl] =>
     match idx is_ m.objs.length, parseSlot sl with
     | some i, some new =>
-      if !(m.obj i).alive then (d, "bad-op") else
+      if !(m.obj i).alive ∨ new == some 3 then (d, "bad-op") else
       let old := inSlot m i
       let registered : Bool := match old with | some k => m.hnd.getD k none == some i | none => false
       let m0 := setInSlot m i new
